@@ -434,7 +434,11 @@ pub fn parse_number(number: &Pair<Rule>) -> Result<Primitive, CompilationError> 
         },
         Rule::integer => match number.as_str().parse::<i64>() {
             Ok(number) => Ok(Primitive::Integer(number)),
-            Err(_) => err_unexpected_token!("found {}, expected number", number),
+            // digits beyond the integer range are still a number
+            Err(_) => match number.as_str().parse::<f64>() {
+                Ok(number) => Ok(Primitive::Number(number)),
+                Err(_) => err_unexpected_token!("found {}, expected number", number),
+            },
         },
         _ => err_unexpected_token!("Expected number but got: {}", number),
     }
